@@ -382,7 +382,7 @@ def fold_limit_guards(m: Model, lgs):
     def helper(it, clsname, size):
         "a MaxWorlds / MaxConsts instance with the real predicates, holding `size` worlds/constants against LIMIT"
         H = bound_class(m, it, ClassRef(HELPERS, clsname), base=dict, consulted=consulted,
-                        only=('is_reached', 'is_exceeded'))
+                        exclude=('quit_flag', 'listen_on', '__init__', 'get', 'copy', '__getitem__', '__setitem__', '__contains__', '__iter__', '__len__'))
         h = H()
         h['ORIGIN'] = LIMIT
         h.wconsts = {None: None}
